@@ -369,6 +369,16 @@ func (bc *boundsCtx) rangeOf0(v ssa.Value, seen map[ssa.Value]bool) ival {
 		if f := cc.StaticCallee(); f != nil && f.String() == "("+typesPath+".Base).Size" {
 			return rng(bc.sizeLo, bc.sizeHi)
 		}
+		if f := cc.StaticCallee(); f != nil && (f.String() == "bytes.IndexByte" || f.String() == "bytes.Index" || f.String() == "bytes.IndexAny" || f.String() == "bytes.IndexRune") {
+			// documented: -1 or an index into the first argument
+			out := ival{-1, 0, true, false}
+			if sl, ok := cc.Args[0].(*ssa.Slice); ok && sl.High != nil {
+				if h := bc.rangeOf(sl.High, seen); h.okHi {
+					out.okHi, out.hi = true, h.hi-1
+				}
+			}
+			return out
+		}
 		return tr
 	}
 	return tr
